@@ -69,7 +69,7 @@ TOL_TF = F(1, 10 ** 6)
 
 
 def n_cases(tier):
-    return 6000 if tier == "quick" else 100000
+    return 4000 if tier == "quick" else 60000
 
 
 def budget_s(tier):
